@@ -38,7 +38,11 @@ class TapeImageContentExtractor(TapeImageWorker):
         listener: TapeImageCliListener,
     ):
         tape = imageManager.image
-        targetDir = os.path.dirname(args.archive)
+        if args.into is not None:
+            targetDir = args.into
+            os.makedirs(targetDir, exist_ok=True)
+        else:
+            targetDir = os.path.dirname(args.archive)
         block = tape.nextBlock()
         while block is not None:
             if block.type == TypeOfTapeBlock.LEADER:
